@@ -25,7 +25,7 @@ pub fn finish_body(mut f: Flow<(), SendBody>) -> Option<Flow<(), RecvResponse>> 
 
 /// Prepare -> (head written) -> (body finished) -> RecvResponse, all in single big calls.
 pub fn to_recv_response(f: Flow<(), Prepare>) -> Option<Flow<(), RecvResponse>> {
-    let mut buf = vec![0u8; 16384];
+    let mut buf = vec![0u8; 1 << 17];
     let mut f = f.proceed();
     // an implementation may hand out the head in several calls even into a big buffer
     for _ in 0..400 {
